@@ -638,7 +638,27 @@ func (st *State) valEq(a, b Value) *Term {
 		}
 		return Eq(x, y)
 	case Ptr:
+		if y, ok := b.(SymPtr); ok {
+			return st.valEq(y, x)
+		}
 		return B(x == b.(Ptr))
+	case SymPtr:
+		switch y := b.(type) {
+		case Ptr:
+			if y.Blk != x.Blk || (y.Off-x.Base)%x.Stride != 0 {
+				return B(false) // a symbolic element address is never nil nor in another block
+			}
+			return Eq(x.Idx, C(x.Idx.W, uint64((y.Off-x.Base)/x.Stride)))
+		case SymPtr:
+			if y.Blk != x.Blk {
+				return B(false)
+			}
+			if y.Base == x.Base && y.Stride == x.Stride && y.Idx.W == x.Idx.W {
+				return Eq(x.Idx, y.Idx)
+			}
+		}
+		st.fail("valEq: unsupported comparison of symbolic element addresses")
+		abort()
 	case Str:
 		return B(x == b.(Str))
 	case Struct:
